@@ -26,7 +26,7 @@ V(kind, id, other, by, info) == [kind |-> kind, id |-> id, other |-> other, by |
 NoMeta == [src |-> 0, stream |-> "", off |-> 0, idx |-> 0]
 SeqToSet(s) == {s[i] : i \in 1..Len(s)}
 
-(* cfg = [cap, batch, dqbatch, retry, dq]: capacity, batch count limits (main, dead queue), AttemptNum, dead queue configured *)
+(* cfg = [cap, batch, dqbatch, retry, dq, gaps] (gaps: batches without deliverable events exist, their sequence numbers are never seen by a send): capacity, batch count limits (main, dead queue), AttemptNum, dead queue configured *)
 ObsNew(cfg) ==
   [cfg     |-> cfg,
    fate    |-> [e \in Ev |-> "unread"],   \* unread | inflight | refused | held | dropped | acked | givenup
@@ -101,6 +101,16 @@ OSendCall(o, b, seq, ids) ==
                !.batches[b] = FnSet(@, seq, ids),
                !.viol = @ \cup v1 \cup v2]
 
+(* C08 byte bound: a batch handed to the output exceeds the configured byte size by at most its last event *)
+OSendBytes(o, b, first, total, last, limit) ==
+  IF limit > 0 /\ total - last >= limit
+    THEN [o EXCEPT !.viol = @ \cup {V("batch_bytes_exceeded", first, total, b, "")}]
+    ELSE o
+
+(* C08 staleness: an added event reaches the send function within flush timeout + heartbeat period + slack *)
+OStale(o, b, first, waitedMs, boundMs) ==
+  IF waitedMs > boundMs THEN [o EXCEPT !.viol = @ \cup {V("batch_stale", first, waitedMs, b, "")}] ELSE o
+
 (* the send function returned *)
 OSendRet(o, b, ids, ok) ==
   LET k == ids[1] IN
@@ -129,7 +139,7 @@ OFail(o, id) ==
 
 (* batcher b calls Controller.Commit(event)  -- C08 order / own-send clauses, C09 routing clause.
    Batches are committed in the order they were formed (sequence numbers), each batch in its own order. *)
-OBatchCommit(o, b, id) ==
+OBatchCommit(o, b, id, nosend) ==     \* nosend: the event is a split parent (never handed to the send function by itself)
   LET done == SeqToSet(o.bcommit[b])
       bs == o.batches[b]
       mine == {q \in DOMAIN bs : id \in SeqToSet(bs[q])}
@@ -137,11 +147,11 @@ OBatchCommit(o, b, id) ==
       v1 == IF mine = {} THEN {}
             ELSE LET q == CHOOSE x \in mine : \A y \in mine : y <= x
                      pos == CHOOSE i \in 1..Len(bs[q]) : bs[q][i] = id
-                     earlierSeq == {x \in 0..(q - 1) : x \notin DOMAIN bs \/ open(x) # {}}
+                     earlierSeq == {x \in 0..(q - 1) : (x \notin DOMAIN bs /\ ~o.cfg.gaps) \/ (x \in DOMAIN bs /\ open(x) # {})}
                      earlierPos == {i \in 1..(pos - 1) : bs[q][i] \in open(q)}
                  IN IF earlierSeq # {} \/ earlierPos # {}
                       THEN {V("batch_commit_order", id, q, b, "")} ELSE {}
-      v2 == IF id \notin o.bdone[b] THEN {V("commit_before_send_return", id, 0, b, "")} ELSE {}
+      v2 == IF id \notin o.bdone[b] /\ ~(nosend /\ mine = {}) THEN {V("commit_before_send_return", id, 0, b, "")} ELSE {}
       v3 == IF id \in o.removed[b] THEN {V("commit_of_dead_queued", id, 0, b, "")} ELSE {}
       v4 == IF id \in done THEN {V("batch_commit_twice", id, 0, b, "")} ELSE {}
   IN [o EXCEPT !.bcommit[b] = Append(@, id), !.viol = @ \cup v1 \cup v2 \cup v3 \cup v4]
@@ -199,7 +209,7 @@ KindsC02 == {"dup_commit", "order", "offset_order", "commit_of_dropped", "unacco
 KindsC05 == {"over_capacity", "double_owner", "inuse_over_capacity", "inuse_negative", "inuse_not_zero_at_idle",
              "waiters_not_zero_at_idle", "leaked"}
 KindsC08 == {"batch_too_big", "batch_commit_order", "commit_before_send_return", "batch_commit_twice",
-             "resend_after_done", "added_not_committed_once"}
+             "resend_after_done", "added_not_committed_once", "batch_bytes_exceeded", "batch_stale", "parent_sent"}
 KindsC09 == {"gave_up_early", "gave_up_unlimited", "onerror_twice", "failed_twice", "fail_without_dq",
              "commit_of_dead_queued", "exhausted_not_dq_only", "exhausted_not_main_once",
              "commit_before_send_return"}
